@@ -76,6 +76,79 @@ C05CnfDrift(c) ==
   IF c.exc = "" /\ CnfLiteralsOK(c.cnf) /\ Dev = "" /\ ~CnfStrict(c.c, c.sel, c.cnf) /\ CnfFree(c.c, c.sel, c.cnf)
   THEN {"cnf-variable-allocation-differs-from-model"} ELSE {}
 
+(***************************************************************************)
+(* kind "cnfdeep": circuits with more than a thousand gates on one path.    *)
+(* Brute force over the CNF variables is out of reach, so the CNF is read   *)
+(* as what a Tseytin encoding is - a list of definitions: with the input    *)
+(* variables fixed, the clauses whose largest variable is k must leave      *)
+(* exactly one value for k given the values of the smaller variables        *)
+(* ("sat", unique extension), or none ("unsat").  If both values remain for *)
+(* some k the CNF is not in that form and the case is not decided (DRIFT).  *)
+(* c.order is a witness order of the gates (checked on the way).            *)
+(***************************************************************************)
+AbsLit(x) == IF x > 0 THEN x ELSE -x
+(* clause indices by largest variable, built in one pass (values threaded through fold accumulators are concrete;
+   operator arguments and LET definitions used inside a LAMBDA would be re-evaluated at every step) *)
+DeepBy(cnf, nv) ==
+  FoldLeft(LAMBDA acc, j :
+             LET m == Max({AbsLit(cnf[j][q]) : q \in DOMAIN cnf[j]} \cup {0})
+             IN  IF m = 0 THEN acc ELSE [acc EXCEPT ![m] = @ \cup {j}],
+           [k \in 1 .. nv |-> {}], [j \in DOMAIN cnf |-> j])
+DeepRun(cnf, by0, n, nv, a) ==
+  FoldLeft(LAMBDA acc, k :
+     IF acc.r # "go" THEN acc
+     ELSE LET holds(cl, b) == \E q \in DOMAIN cl :
+                                LET x == cl[q]  v == AbsLit(x)
+                                IN  IF v = k THEN (x > 0) = b ELSE (x > 0) = (v \in acc.T)
+              ok(b) == \A j \in acc.by[k] : holds(acc.cnf[j], b)
+          IN IF k <= n THEN (IF ok(acc.a[k]) THEN [acc EXCEPT !.T = IF acc.a[k] THEN @ \cup {k} ELSE @] ELSE [acc EXCEPT !.r = "unsat"])
+             ELSE IF ok(TRUE) /\ ok(FALSE) THEN [acc EXCEPT !.r = "free"]
+             ELSE IF ok(TRUE) THEN [acc EXCEPT !.T = @ \cup {k}]
+             ELSE IF ok(FALSE) THEN acc
+             ELSE [acc EXCEPT !.r = "unsat"],
+   [r |-> IF \E j \in DOMAIN cnf : cnf[j] = <<>> THEN "unsat" ELSE "go", T |-> {}, by |-> by0, cnf |-> cnf, a |-> a],
+   [k \in 1 .. nv |-> k])
+DeepVerdicts(c) ==       \* one record per input assignment
+  LET n == Len(c.c.i)
+      nv == Max({n, MaxVar(c.cnf)})
+      pre == [by |-> DeepBy(c.cnf, nv), G |-> AsFcn(c.c.g)]
+  IN [a \in [1 .. n -> BOOLEAN] |->
+        LET run == DeepRun(c.cnf, pre.by, n, nv, a)
+            ev == EvalChecked(pre.G, c.order, [l \in SeqSet(c.c.i) |-> IF a[Pos(c.c.i, l)] THEN {0} ELSE {}], {0})
+            evok == ev.ok /\ \A j \in DOMAIN c.sel : c.c.o[c.sel[j] + 1] \in DOMAIN ev.v
+        IN [res |-> IF run.r = "go" THEN "sat" ELSE run.r,
+            evok |-> evok,
+            want |-> evok /\ \A j \in DOMAIN c.sel : 0 \in ev.v[c.c.o[c.sel[j] + 1]]]]
+C05DeepFails(c) ==
+  IF c.exc # "" THEN {"tseytin-raised:" \o c.exc}
+  ELSE IF ~CnfLiteralsOK(c.cnf) THEN {"cnf-contains-the-literal-0"}
+  ELSE LET vs == DeepVerdicts(c) IN
+       FailSet(<< <<"deep-cnf-not-exact",
+                    \A a \in DOMAIN vs : ~vs[a].evok \/ vs[a].res = "free" \/ ((vs[a].res = "sat") <=> vs[a].want)>> >>)
+C05DeepDrift(c) ==
+  IF c.exc # "" \/ ~CnfLiteralsOK(c.cnf) THEN {}
+  ELSE LET vs == DeepVerdicts(c) IN
+       (IF \E a \in DOMAIN vs : vs[a].res = "free" THEN {"deep-cnf-not-a-list-of-definitions(undecided)"} ELSE {}) \cup
+       (IF \E a \in DOMAIN vs : ~vs[a].evok THEN {"deep-case-witness-order-not-operands-first(undecided)"} ELSE {})
+
+(* kind "csatdeep": the satisfiability query on such a circuit (c.sel = all outputs) *)
+C05DeepSatFails(c) ==
+  IF c.exc # "" THEN {"is_circuit_satisfiable-raised:" \o c.exc}
+  ELSE IF ~CnfLiteralsOK(c.cnf) THEN {"cnf-contains-the-literal-0"}
+  ELSE LET vs == DeepVerdicts(c)
+           n == Len(c.c.i)
+           T == {x \in DOMAIN c.model : c.model[x] > 0}
+           am == [j \in 1 .. n |-> j \in T]
+       IN IF \E a \in DOMAIN vs : ~vs[a].evok THEN {}
+          ELSE FailSet(<<
+            <<"answer", c.answer = (\E a \in DOMAIN vs : vs[a].want)>>,
+            <<"model-has-variable-per-position", \A x \in DOMAIN c.model : c.model[x] = x \/ c.model[x] = -x>>,
+            <<"model-satisfies-cnf", ~c.answer \/
+                \A j \in DOMAIN c.cnf : \E q \in DOMAIN c.cnf[j] :
+                   LET x == c.cnf[j][q] IN (x > 0) = (AbsLit(x) \in T)>>,
+            <<"model-projects-to-satisfying-input", ~c.answer \/ Len(c.model) < n \/ vs[am].want>>
+          >>)
+
 AllOutputsTrueSomewhere(c) ==
   LET tt == GateTT(c)  all == AllRows(Len(c.i))
   IN  InterAll([k \in DOMAIN c.o |-> tt[c.o[k]]], all) # {}
